@@ -363,12 +363,19 @@ type blOp struct {
 	Kind  string // register, unregister, unregisterSessionPeer, routine, terminate, shouldTerminate, eligible
 	Peer  string
 	Pause int // microseconds (ticker mode)
+	// crowd histories (Pool > 0) name their peers at run time: registerNth = the Arg-th pool peer that
+	// is not registered (a duplicate registration if all are), unregisterNth = the Arg-th registered
+	// peer (a never registered name if none is), registerDup = the Arg-th registered peer once more,
+	// eligibleNth = the Arg-th pool peer;
+	// unregisterSessionPeer with an empty Peer falls back to unregisterNth when no session runs
+	Arg int
 }
 
 type blCase struct {
 	Ticker    bool
 	StalePeer bool // OngoingSessionPeer keeps returning the last peer after the session ended
 	Picks     []int
+	Pool      int // crowd histories: number of distinct peer names (p00, p01, ...)
 	Ops       []blOp
 }
 
@@ -385,10 +392,14 @@ type blHarness struct {
 	pickI           int
 
 	// model
-	registered    map[string]bool
-	unregistering map[string]int // calls in flight
-	terminating   bool           // Terminate called
-	terminated    bool           // Terminate returned
+	registered          map[string]bool
+	counted             map[string]bool // peers the leecher has to count: registered before Terminate, not unregistered since
+	peakCounted         int
+	deepWave            bool // the peer set fell to <= 1/4 of a peak of >= 16 peers
+	startsAfterDeepWave int
+	unregistering       map[string]int // calls in flight
+	terminating         bool           // Terminate called
+	terminated          bool           // Terminate returned
 
 	log       []string
 	violation string
@@ -455,10 +466,16 @@ func (h *blHarness) callbacks() basestreamleecher.Callbacks {
 					h.fail("UnregisterPeer(%s) restarts the session with candidates %v", p, candidates)
 				}
 			}
+			if !h.registered[picked] {
+				h.fail("StartSession: session started with peer %s which is not registered", picked)
+			}
 			h.ongoing = true
 			h.sessionPeer = picked
 			h.shouldTerminate = false
 			h.starts++
+			if h.deepWave {
+				h.startsAfterDeepWave++
+			}
 		},
 		TerminateSession: func() {
 			h.mu.Lock()
@@ -483,8 +500,76 @@ func (h *blHarness) callbacks() basestreamleecher.Callbacks {
 	}
 }
 
+func poolPeer(i int) string { return fmt.Sprintf("p%02d", i) }
+
+// resolve names the peer of a crowd operation from the model state (caller holds h.mu)
+func (h *blHarness) resolve(op blOp) blOp {
+	nthRegistered := func() string {
+		var reg []string
+		for p := range h.registered {
+			reg = append(reg, p)
+		}
+		if len(reg) == 0 {
+			return "ghost" // unregistering an unknown peer is legal
+		}
+		sort.Strings(reg)
+		return reg[op.Arg%len(reg)]
+	}
+	switch op.Kind {
+	case "registerNth":
+		op.Kind = "register"
+		var free []string
+		for i := 0; i < h.c.Pool; i++ {
+			if !h.registered[poolPeer(i)] {
+				free = append(free, poolPeer(i))
+			}
+		}
+		if len(free) == 0 {
+			op.Peer = poolPeer(op.Arg % h.c.Pool)
+		} else {
+			op.Peer = free[op.Arg%len(free)]
+		}
+	case "registerDup":
+		// registering a registered peer again does not change the set
+		if len(h.registered) == 0 {
+			op.Kind = "routine"
+		} else {
+			op.Kind = "register"
+			op.Peer = nthRegistered()
+		}
+	case "unregisterNth":
+		op.Kind = "unregister"
+		op.Peer = nthRegistered()
+	case "unregisterSessionPeer":
+		if op.Peer == "" && !h.ongoing {
+			op.Kind = "unregister"
+			op.Peer = nthRegistered()
+		}
+	case "eligibleNth":
+		op.Kind = "eligible"
+		op.Peer = poolPeer(op.Arg % h.c.Pool)
+	}
+	return op
+}
+
+// checkPeersNum: a registered peer is counted, an unregistered one is not (judged until Terminate,
+// which makes RegisterPeer a no-op). Only the driver goroutine changes the peer set.
+func (h *blHarness) checkPeersNum(after string) {
+	got := h.d.PeersNum()
+	h.mu.Lock()
+	defer h.mu.Unlock()
+	if got != len(h.counted) {
+		var reg []string
+		for p := range h.counted {
+			reg = append(reg, p)
+		}
+		sort.Strings(reg)
+		h.fail("after %s returned PeersNum() = %d, but %d peers are registered: %v", after, got, len(reg), reg)
+	}
+}
+
 func runBaseLeecher(c blCase) verdict {
-	h := &blHarness{c: c, ineligible: map[string]bool{}, registered: map[string]bool{}, unregistering: map[string]int{}}
+	h := &blHarness{c: c, ineligible: map[string]bool{}, registered: map[string]bool{}, counted: map[string]bool{}, unregistering: map[string]int{}}
 	interval := time.Hour
 	if c.Ticker {
 		interval = time.Millisecond
@@ -497,13 +582,27 @@ func runBaseLeecher(c blCase) verdict {
 	cls := map[string]bool{}
 	terminateCalled := false
 	for _, op := range c.Ops {
+		if c.Pool > 0 {
+			h.mu.Lock()
+			op = h.resolve(op)
+			h.mu.Unlock()
+		}
 		switch op.Kind {
 		case "register":
 			h.mu.Lock()
 			h.log = append(h.log, "RegisterPeer("+op.Peer+")")
 			h.registered[op.Peer] = true // from now on a session with the peer is legitimate
+			if !terminateCalled {
+				h.counted[op.Peer] = true
+				if len(h.counted) > h.peakCounted {
+					h.peakCounted = len(h.counted)
+				}
+			}
 			h.mu.Unlock()
 			_ = h.d.RegisterPeer(op.Peer)
+			if !terminateCalled {
+				h.checkPeersNum("RegisterPeer(" + op.Peer + ")")
+			}
 		case "unregister", "unregisterSessionPeer":
 			h.mu.Lock()
 			if op.Kind == "unregisterSessionPeer" && h.ongoing {
@@ -524,7 +623,17 @@ func runBaseLeecher(c blCase) verdict {
 			h.mu.Lock()
 			h.unregistering[op.Peer]--
 			delete(h.registered, op.Peer)
+			delete(h.counted, op.Peer)
 			h.log = append(h.log, "UnregisterPeer("+op.Peer+") returned")
+			if !terminateCalled && h.peakCounted >= 16 {
+				if len(h.counted) <= h.peakCounted/4 {
+					h.deepWave = true
+					cls["wave_down_to_quarter_of_peak"] = true
+				}
+				if len(h.counted) == 0 {
+					cls["wave_down_to_zero"] = true
+				}
+			}
 			if h.ongoing && h.sessionPeer == op.Peer {
 				h.fail("after UnregisterPeer(%s) returned, a session with %s is running", op.Peer, op.Peer)
 			}
@@ -539,6 +648,9 @@ func runBaseLeecher(c blCase) verdict {
 				}
 			}
 			h.mu.Unlock()
+			if !terminateCalled {
+				h.checkPeersNum("UnregisterPeer(" + op.Peer + ")")
+			}
 		case "routine":
 			h.mu.Lock()
 			h.log = append(h.log, "Routine()")
@@ -593,6 +705,15 @@ func runBaseLeecher(c blCase) verdict {
 	if h.starts > 1 {
 		cls["several_sessions"] = true
 	}
+	if h.startsAfterDeepWave > 0 {
+		cls["session_started_after_wave_down"] = true
+	}
+	switch {
+	case h.peakCounted >= 25:
+		cls["peak_25_40_peers"] = true
+	case h.peakCounted >= 16:
+		cls["peak_16_24_peers"] = true
+	}
 	if c.Ticker {
 		cls["ticker"] = true
 	} else {
@@ -631,7 +752,97 @@ func genBaseLeecherCase(t *rapid.T) blCase {
 	return c
 }
 
+// genBaseLeecherCrowdCase: a node-sized peer set. 1-3 cycles of a registration wave (the first one up
+// to the drawn peak of 16-40 peers, later ones to any level) followed by a wave of unregistrations down
+// to few or zero peers; ticks, session terminations, eligibility changes, duplicate registrations and
+// unregistrations of unknown peers are interleaved. The generator knows the size of the peer set
+// (every unregistration removes exactly one registered peer if there is one), not its members.
+func genBaseLeecherCrowdCase(t *rapid.T) blCase {
+	c := blCase{
+		Ticker:    rapid.IntRange(0, 2).Draw(t, "ticker") == 0,
+		StalePeer: rapid.Bool().Draw(t, "stalePeerName"),
+		Picks:     rapid.SliceOfN(rapid.IntRange(0, 39), 8, 8).Draw(t, "picks"),
+	}
+	peak := rapid.IntRange(16, 40).Draw(t, "peak")
+	c.Pool = peak + rapid.IntRange(0, 4).Draw(t, "spareNames")
+	n := 0 // size of the peer set
+	terminated := false
+	terminateAt := -1 // 1 case in 8 terminates the leecher somewhere in the history
+	if rapid.IntRange(0, 7).Draw(t, "terminates") == 0 {
+		terminateAt = rapid.IntRange(0, 150).Draw(t, "terminateAt")
+	}
+	emit := func(kind string) {
+		if len(c.Ops) == terminateAt {
+			terminated = true
+			c.Ops = append(c.Ops, blOp{Kind: "terminate"})
+		}
+		op := blOp{Kind: kind, Arg: rapid.IntRange(0, 39).Draw(t, "arg")}
+		if c.Ticker && rapid.IntRange(0, 7).Draw(t, "pause") == 0 {
+			op.Pause = rapid.SampledFrom([]int{300, 1200}).Draw(t, "pauseUs")
+		}
+		c.Ops = append(c.Ops, op)
+	}
+	misc := func() {
+		// 0-2 interleaved operations which do not change the size of the peer set
+		for k := rapid.SampledFrom([]int{0, 0, 0, 1, 1, 2}).Draw(t, "interleaved"); k > 0; k-- {
+			kind := rapid.SampledFrom([]string{"routine", "routine", "routine", "routine", "shouldTerminate", "shouldTerminate", "eligibleNth", "dupRegister", "ghost"}).Draw(t, "misc")
+			switch kind {
+			case "dupRegister":
+				emit("registerDup")
+			case "ghost":
+				c.Ops = append(c.Ops, blOp{Kind: "unregister", Peer: "ghost"})
+			default:
+				emit(kind)
+			}
+		}
+	}
+	cycles := rapid.IntRange(1, 3).Draw(t, "cycles")
+	for cy := 0; cy < cycles; cy++ {
+		up := peak
+		if cy > 0 {
+			up = rapid.IntRange(1, peak).Draw(t, "level")
+		}
+		for n < up {
+			emit("registerNth")
+			if !terminated {
+				n++
+			} else {
+				up-- // RegisterPeer is a no-op now; bound the wave all the same
+			}
+			misc()
+		}
+		down := rapid.SampledFrom([]int{0, 0, 0, 1, 1, 2, 3, 5, n / 4, n / 2}).Draw(t, "downTo")
+		sessionPeerEvery := rapid.IntRange(1, 6).Draw(t, "sessionPeerEvery")
+		for n > down {
+			if rapid.IntRange(1, sessionPeerEvery).Draw(t, "which") == 1 {
+				emit("unregisterSessionPeer")
+			} else {
+				emit("unregisterNth")
+			}
+			n--
+			misc()
+		}
+		for k := rapid.IntRange(0, 2).Draw(t, "ticksAfterWave"); k > 0; k-- {
+			emit("routine")
+		}
+	}
+	return c
+}
+
 var stBL = stats.New("base_leecher")
+var stBLC = stats.New("base_leecher_crowd")
+
+func TestC18BaseLeecherCrowd(t *testing.T) {
+	rapid.Check(t, func(t *rapid.T) {
+		c := genBaseLeecherCrowdCase(t)
+		v := runBaseLeecher(c)
+		if v.safety != "" {
+			t.Fatalf("%s\ncase: %+v", v.safety, c)
+		}
+		stBLC.Case(stats.Hash(fmt.Sprintf("%+v", c)), v.nontrivial, v.classes...)
+		stBLC.Sample(func() interface{} { return c })
+	})
+}
 
 func TestC18BaseLeecher(t *testing.T) {
 	rapid.Check(t, func(t *rapid.T) {
